@@ -1945,8 +1945,9 @@ example : processContainer (containerSection (t "oral_formants? <exists>") (t "x
 /-! ## the layout of a whole written file (shared by the whole-file theorems in `Props/C19File.lean`, `Props/C19Read.lean`) -/
 
 /-- the numeral `_cleanNumericValues` leaves in a `head = tail` row: a zero-valued non-integer literal
-(`0.0`, `-0.0`, `0e0`) becomes `0`; everything else is kept -/
-def cz (n : Txt) : Txt := if isIntLit n = true then n else if fclass n = some FClass.zero then t "0" else n
+(`0.0`, `0e0`) becomes `0`, and one that starts with a minus sign (`-0.0`) becomes `-0` (`zeroForm`; the sign
+of a negative zero is kept since /repo commit bd8eb8f); everything else is kept -/
+def cz (n : Txt) : Txt := if isIntLit n = true then n else if fclass n = some FClass.zero then zeroForm n else n
 
 def cleanPT (p : PT) : PT := { p with pts := p.pts.map fun q => (cz q.1, cz q.2) }
 def cleanIT (i : IT) : IT := { i with subs := i.subs.map cleanPT }
@@ -1983,15 +1984,13 @@ theorem pointobj_roundtrip (p : PO) :
     (PO.Ok1 p → open1D p.text = .ok p) ∧ (PO.Ok2 p → open2D p.text = .ok p) :=
   ⟨pointobj_roundtrip_1d p, pointobj_roundtrip_2d p⟩
 
-/-- the long (Praat) and the short (praatio) text layout of the same data open to the same object — for 2-D
-objects only when there is at least one point: on an empty PitchTier / DurationTier in the long layout the
-reader raises ValueError (`pointobj_long_2d_empty_fails_all`), which is a defect of the code, kept as a
-known finding -/
+/-- the long (Praat) and the short (praatio) text layout of the same data open to the same object, for every
+number of points (for empty 2-D objects since the repair of `_parseNormalHeader`, /repo commit 3bc936d) -/
 theorem pointobj_long_short_agree (p : PO) :
     (PO.Ok1 p → Long.Ok1 p → open1D (p.longText false) = open1D p.text) ∧
-    (PO.Ok2 p → Long.Ok2 p → p.rows ≠ [] → open2D (p.longText true) = open2D p.text) := by
+    (PO.Ok2 p → Long.Ok2 p → open2D (p.longText true) = open2D p.text) := by
   constructor
   · intro h1 h2; rw [pointobj_long_1d p h2, pointobj_roundtrip_1d p h1]
-  · intro h1 h2 hne; rw [pointobj_long_2d p h2 hne, pointobj_roundtrip_2d p h1]
+  · intro h1 h2; rw [pointobj_long_2d_all p h2, pointobj_roundtrip_2d p h1]
 
 end C19
